@@ -176,7 +176,7 @@ def run_job(job):
         res["status"] = "error"
         res["reason"] = "canary assertion missing from results"
         return res
-    if want_loops and loop_obl == 0:
+    if want_loops and loop_obl == 0 and not job.get("loops_optional"):
         res["status"] = "error"
         res["reason"] = "loop contracts requested but no loop-invariant obligations generated (silently dropped?)"
         return res
